@@ -366,6 +366,8 @@ impl<'a, const D: usize> Rdp<'a, D> {
     }
 
     fn simplify(&mut self, i0: usize, i1: usize) {
+        #[cfg(feature = "verif")]
+        crate::verif::tick();
         self.keep[i0] = true;
         self.keep[i1] = true;
         if i1 - i0 < 2 {
